@@ -22,6 +22,11 @@ WORDS = ['a', 'bb', 'ccc', 'dddd', 'eeeee', 'fffffff', 'gggggggggg', 'hh hh', 'i
 ROOT_FS = 16
 
 
+def set_pieces(v):
+    """A string-set value: a literal string, or a list of ('text', s) / ('counter', name) pieces."""
+    return [('text', v)] if isinstance(v, str) else [tuple(p) for p in v]
+
+
 # ---- abstract documents ----------------------------------------------------------------------------
 
 def px(rng, top, quarter=True):
@@ -158,7 +163,17 @@ def random_doc(rng, max_sections=14):
                 return []
             # one assignment per name and element (build.compute_string_set keeps the last of duplicates)
             names_here = rng.sample(['h', 'k'], rng.choice([1, 1, 2])) if rng.random() < 0.7 else ['h']
-            return [(nm, rng.choice(WORDS)) for nm in names_here]
+            def value():
+                # a literal, or a value mixing in page-based counters (computed again after pagination)
+                if rng.random() < 0.7:
+                    return rng.choice(WORDS)
+                pieces = [('text', rng.choice(['pg', 'a', 'sec']))]
+                for _ in range(rng.choice([1, 1, 2])):
+                    pieces.append(('counter', rng.choice(['page', 'page', 'pages', 'c'])))
+                    if rng.random() < 0.6:
+                        pieces.append(('text', rng.choice(['of', 'x', ' '])))
+                return pieces
+            return [(nm, value()) for nm in names_here]
         sections.append({'brk': brk, 'name': cur, 'sets': sets(), 'inner': sets(), 'late': sets(),
                          'pc': rng.random() < 0.15})
     rules = [{'sel': '', 'decls': page_decls(rng, base=True),
@@ -238,7 +253,9 @@ def doc_html(doc):
         def ss(sets):
             if not sets:
                 return ''
-            return 'string-set: ' + ', '.join(f'{n} "{v}"' for n, v in sets) + ';'
+            def val(v):
+                return ' '.join(f'"{p[1]}"' if p[0] == 'text' else f'counter({p[1]})' for p in set_pieces(v))
+            return 'string-set: ' + ', '.join(f'{n} {val(v)}' for n, v in sets) + ';'
         style = ''
         if sec['brk'] != 'auto':
             style += f"break-before: {sec['brk']};"
@@ -291,8 +308,9 @@ def prelude_tokens(sel):
 
 
 def doc_line(doc):
-    secs = [[s['brk'], g.s(s['name']), [[g.s(n), g.s(v)] for n, v in s['sets']],
-             [[g.s(n), g.s(v)] for n, v in s['inner']], [[g.s(n), g.s(v)] for n, v in s['late']], bool(s.get('pc'))]
+    def wsets(sets):
+        return [[g.s(n), [[k, g.s(t)] for k, t in set_pieces(v)]] for n, v in sets]
+    secs = [[s['brk'], g.s(s['name']), wsets(s['sets']), wsets(s['inner']), wsets(s['late']), bool(s.get('pc'))]
             for s in doc['sections']]
     rules = [UA_RULE]
     for rule in doc['rules']:
@@ -794,6 +812,50 @@ def doc_oracle(doc, pages):
                     return f'page {i}: {kw} does not end at the bottom border edge'
                 if suffix == 'middle' and abs(y + mh / 2 - (mt + bh / 2)) > eps:
                     return f'page {i}: {kw} is not centred'
+    # css-page-3 5.3.2 rule 3: when the fixed dimension of a margin box is over-constrained (size and both
+    # margins given) the margin towards the outside of the page gives way: boxes in the top / left half
+    # recompute margin-top / margin-left, the others margin-bottom / margin-right; the other margin and the
+    # size keep their specified values.  Judged for boxes declared by unconditional rules only, px values.
+    cond_kw = {kw for r in doc['rules'] if r['sel'].strip() for kw, _ in r['margin']}
+
+    def declared(kw, name):
+        cands = [(bool(imp), idx, k, v) for idx, r in enumerate(doc['rules']) if not r['sel'].strip()
+                 for bkw, ds in r['margin'] if bkw == kw for k, (nm, v, imp) in enumerate(ds) if nm == name]
+        return max(cands)[3] if cands else None
+
+    def px_of(v, default):
+        if v is None:
+            return default
+        if v == AUTO or isinstance(v, tuple):
+            return None
+        return float(F(v))
+    for i, p in enumerate(pages):
+        for mbx in p['margin']:
+            kw = mbx['kw']
+            if kw in cond_kw:
+                continue
+            x, y, bml, bwid, bmr, bmt, bhei, bmb = mbx['nums']
+            axis, prefix = strip_of(kw)
+            checks = []
+            if axis in ('corner', 'h'):       # the width is the fixed dimension
+                start = ('left' in kw) if axis == 'corner' else prefix == 'left'
+                checks.append(('width', 'margin-left', 'margin-right', bwid, bml, bmr, start))
+            if axis in ('corner', 'v'):       # the height is the fixed dimension
+                start = ('top' in kw) if axis == 'corner' else prefix == 'top'
+                checks.append(('height', 'margin-top', 'margin-bottom', bhei, bmt, bmb, start))
+            for size_name, a_name, b_name, size, ma, mb_, start in checks:
+                dsize = px_of(declared(kw, size_name), None)
+                da, db = px_of(declared(kw, a_name), 0.0), px_of(declared(kw, b_name), 0.0)
+                if dsize is None or da is None or db is None:
+                    continue
+                if abs(size - dsize) > eps and not (size_name == 'height' and dsize < 0):
+                    return f'page {i}: {kw} {size_name} {size} instead of the specified {dsize}'
+                if start and abs(mb_ - db) > eps:
+                    return (f'page {i}: {kw} is over-constrained in its fixed dimension and lies in the top/left '
+                            f'half: {b_name} must keep {db} ({a_name} gives way), but it is {mb_} ({a_name} = {ma})')
+                if not start and abs(ma - da) > eps:
+                    return (f'page {i}: {kw} is over-constrained in its fixed dimension and lies in the bottom/right '
+                            f'half: {a_name} must keep {da} ({b_name} gives way), but it is {ma} ({b_name} = {mb_})')
     # margin-box text where a single unconditional rule defines it
     single = {}
     for r in doc['rules']:
@@ -802,9 +864,21 @@ def doc_oracle(doc, pages):
                 if nm == 'content':
                     single.setdefault(kw, []).append((r['sel'], v))
     store = collections.defaultdict(lambda: collections.defaultdict(list))
+    unknown = set()         # names with an assignment whose value this oracle cannot state
     for k, sec in enumerate(doc['sections']):
         for nm, v in sec['sets'] + sec['inner'] + sec['late']:
-            store[nm][where[k] + 1].append(v)
+            # the value of an assignment uses the counters of the page the element is on
+            value = ''
+            for kind, t in set_pieces(v):
+                if kind == 'text':
+                    value += t
+                elif t == 'pages':
+                    value += str(n)
+                elif t == 'page' and not counter_decl:
+                    value += str(where[k] + 1)
+                else:
+                    unknown.add(nm)
+            store[nm][where[k] + 1].append(value)
     margin_counters = any(nm.startswith('counter-') for r in doc['rules'] for _, ds in r['margin'] for nm, _, _ in ds)
     for kw, defs in single.items():
         if len(defs) != 1 or defs[0][0] != '' or defs[0][1][1] is None:
@@ -823,6 +897,8 @@ def doc_oracle(doc, pages):
                         text += str(i + 1)
                     else:
                         ok = False
+                elif item[1] in unknown:
+                    ok = False
                 else:
                     kwd = item[2] or 'first'
                     first_sec = doc['sections'][secs_here[0]] if secs_here else None
@@ -920,8 +996,10 @@ def revive_doc(doc):
             return F(v)
         return v
     out = dict(doc)
-    out['sections'] = [{**s, 'sets': [tuple(p) for p in s['sets']], 'inner': [tuple(p) for p in s['inner']],
-                        'late': [tuple(p) for p in s['late']]} for s in doc['sections']]
+    def sets(lst):
+        return [(n, v if isinstance(v, str) else [tuple(p) for p in v]) for n, v in lst]
+    out['sections'] = [{**s, 'sets': sets(s['sets']), 'inner': sets(s['inner']), 'late': sets(s['late'])}
+                       for s in doc['sections']]
     out['rules'] = [{'sel': r['sel'], 'decls': [(n, val(v), imp) for n, v, imp in r['decls']],
                      'margin': [(kw, [(n, val(v), imp) for n, v, imp in ds]) for kw, ds in r['margin']]}
                     for r in doc['rules']]
